@@ -522,9 +522,9 @@ func (s *stepper) timed(what string, v variant, f func()) string {
 }
 
 type tokRes struct {
-	state, call         []byte
-	single              bool
-	panicked            string
+	state, call []byte
+	single      bool
+	panicked    string
 }
 
 func (s *stepper) callTokens(v variant) (r tokRes) {
@@ -875,7 +875,15 @@ func (s *stepper) stepWriteRequest(st replay.Step) (replay.Obs, error) {
 	if derr != nil {
 		o["__note__"] = "written request does not decode: " + derr.Error()
 	}
-	o["w_batches"], o["w_keys"], o["w_rv"], o["w_eos"] = n, keys, meta2[vgirpc.MetaRequestVersion], eos
+	// which of the three keys WriteRequest is documented to stamp are there
+	// (other keys are none of C01's business)
+	stamped := []string{}
+	for _, k := range keys {
+		if k == vgirpc.MetaMethod || k == vgirpc.MetaRequestVersion || k == vgirpc.MetaProtocolVersion {
+			stamped = append(stamped, k)
+		}
+	}
+	o["w_batches"], o["w_keys"], o["w_rv"], o["w_eos"] = n, stamped, meta2[vgirpc.MetaRequestVersion], eos
 	if err := s.buildVariants(); err != nil {
 		return nil, err
 	}
